@@ -511,18 +511,28 @@ class _PatchingASTWalker:
 
     def _arguments(self, node):
         children = []
-        args = list(node.args)
+        posonlyargs = list(node.posonlyargs)
+        args = posonlyargs + list(node.args)
         defaults = [None] * (len(args) - len(node.defaults)) + list(node.defaults)
         for index, (arg, default) in enumerate(zip(args, defaults)):
             if index > 0:
                 children.append(",")
             self._add_args_to_children(children, arg, default)
+            if index == len(posonlyargs) - 1:
+                children.extend([",", "/"])
         if node.vararg is not None:
             if args:
                 children.append(",")
             children.extend(["*", node.vararg.arg])
+        elif node.kwonlyargs:
+            if args:
+                children.append(",")
+            children.append("*")
+        for arg, default in zip(node.kwonlyargs, node.kw_defaults):
+            children.append(",")
+            self._add_args_to_children(children, arg, default)
         if node.kwarg is not None:
-            if args or node.vararg is not None:
+            if args or node.vararg is not None or node.kwonlyargs:
                 children.append(",")
             children.extend(["**", node.kwarg.arg])
         self._handle(node, children)
